@@ -66,24 +66,83 @@ func vfC09CatOf(r Result) (cat int, ok bool) {
 	}
 }
 
-// vfC09Hour is what the model knows about one hour.
-type vfC09Hour struct {
-	cat     [vfC09NCat]uint64
+// vfC09Counts are counted queries by category, client and domain.
+type vfC09Counts struct {
 	clients map[string]uint64
 	queried map[string]uint64
 	blocked map[string]uint64
+	cat     [vfC09NCat]uint64
+}
+
+func vfC09NewCounts() (c *vfC09Counts) {
+	return &vfC09Counts{clients: map[string]uint64{}, queried: map[string]uint64{}, blocked: map[string]uint64{}}
+}
+
+func (c *vfC09Counts) total() (n uint64) {
+	for _, v := range c.cat {
+		n += v
+	}
+
+	return n
+}
+
+// addTo adds c to dst.
+func (c *vfC09Counts) addTo(dst *vfC09Counts) {
+	for i, v := range c.cat {
+		dst.cat[i] += v
+	}
+	for k, n := range c.clients {
+		dst.clients[k] += n
+	}
+	for k, n := range c.queried {
+		dst.queried[k] += n
+	}
+	for k, n := range c.blocked {
+		dst.blocked[k] += n
+	}
+}
+
+// Indexes into the [5]uint64 vectors used by the read check.
+const (
+	vfC09Tot = iota
+	vfC09Flt
+	vfC09SB
+	vfC09SS
+	vfC09Par
+)
+
+var vfC09VecNames = [5]string{
+	"num_dns_queries", "num_blocked_filtering", "num_replaced_safebrowsing", "num_replaced_safesearch",
+	"num_replaced_parental",
+}
+
+// vec returns (total, filtered, safebrowsing, safesearch, parental).
+func (c *vfC09Counts) vec() (v [5]uint64) {
+	return [5]uint64{c.total(), c.cat[vfC09Filtered], c.cat[vfC09SafeBrowsing], c.cat[vfC09SafeSearch], c.cat[vfC09Parental]}
+}
+
+func vfC09AddVec(a, b [5]uint64) (v [5]uint64) {
+	for i := range a {
+		v[i] = a[i] + b[i]
+	}
+
+	return v
+}
+
+// vfC09Hour is what the model knows about one hour.
+type vfC09Hour struct {
+	// sure are the counted queries that must be reported while the hour is in
+	// the window.
+	sure *vfC09Counts
+
+	// opt are counted queries of which the statement does not say whether they
+	// survive: those counted before the statistics were disabled through the
+	// deprecated API ("0 means that the statistics is disabled").
+	opt *vfC09Counts
 
 	// uncertain is set once the hour has been outside the retention window:
 	// from then on the implementation may have dropped it.
 	uncertain bool
-}
-
-func (h *vfC09Hour) total() (n uint64) {
-	for _, c := range h.cat {
-		n += c
-	}
-
-	return n
 }
 
 // vfC09Model is the reference model of the statistics module.
@@ -117,15 +176,24 @@ func (m *vfC09Model) settle() (expiredWithData bool) {
 func (m *vfC09Model) count(cat int, client, domain string, n uint64) {
 	mh := m.hours[m.now]
 	if mh == nil {
-		mh = &vfC09Hour{clients: map[string]uint64{}, queried: map[string]uint64{}, blocked: map[string]uint64{}}
+		mh = &vfC09Hour{sure: vfC09NewCounts(), opt: vfC09NewCounts()}
 		m.hours[m.now] = mh
 	}
-	mh.cat[cat] += n
-	mh.clients[client] += n
+	mh.sure.cat[cat] += n
+	mh.sure.clients[client] += n
 	if cat == vfC09NotFiltered {
-		mh.queried[domain] += n
+		mh.sure.queried[domain] += n
 	} else {
-		mh.blocked[domain] += n
+		mh.sure.blocked[domain] += n
+	}
+}
+
+// makeOptional turns everything counted so far into counts that may or may not
+// be reported any more.
+func (m *vfC09Model) makeOptional() {
+	for _, mh := range m.hours {
+		mh.sure.addTo(mh.opt)
+		mh.sure = vfC09NewCounts()
 	}
 }
 
@@ -149,36 +217,16 @@ type vfC09Resp struct {
 	TopBlocked []map[string]uint64 `json:"top_blocked_domains"`
 }
 
-// Indexes into the [5]uint64 vectors used by the read check.
-const (
-	vfC09Tot = iota
-	vfC09Flt
-	vfC09SB
-	vfC09SS
-	vfC09Par
-)
-
-var vfC09VecNames = [5]string{
-	"num_dns_queries", "num_blocked_filtering", "num_replaced_safebrowsing", "num_replaced_safesearch",
-	"num_replaced_parental",
-}
-
-// vec returns (total, filtered, safebrowsing, safesearch, parental) of an hour.
-func (h *vfC09Hour) vec() (v [5]uint64) {
-	if h == nil {
-		return v
-	}
-
-	return [5]uint64{h.total(), h.cat[vfC09Filtered], h.cat[vfC09SafeBrowsing], h.cat[vfC09SafeSearch], h.cat[vfC09Parental]}
-}
-
 // vfC09ReadInfo says what a checked read looked like (for coverage counters).
 type vfC09ReadInfo struct {
 	mode            string
 	hoursWithData   int
 	uncertainInWin  bool
+	optionalInWin   bool
 	uncertainShown  int
 	uncertainHidden int
+	optShown        int
+	optHidden       int
 	total           uint64
 }
 
@@ -241,8 +289,9 @@ func vfC09CheckRead(m *vfC09Model, body []byte) (info vfC09ReadInfo, err error) 
 	limit := m.limitHours()
 	first := m.firstHour()
 
-	// Bounds from the model: lo counts the hours that were always inside the
-	// window, hi also those that have been outside it at some time.
+	// Bounds from the model: lo counts what must be reported (sure counts of the
+	// hours that were always inside the window), hi everything counted in an
+	// hour of the window.
 	var lo, hi [5]uint64
 	inWin := []uint32{}
 	for h, mh := range m.hours {
@@ -250,15 +299,14 @@ func vfC09CheckRead(m *vfC09Model, body []byte) (info vfC09ReadInfo, err error) 
 			continue
 		}
 		inWin = append(inWin, h)
-		v := mh.vec()
-		for i := range v {
-			hi[i] += v[i]
-			if !mh.uncertain {
-				lo[i] += v[i]
-			}
-		}
+		hi = vfC09AddVec(hi, vfC09AddVec(mh.sure.vec(), mh.opt.vec()))
 		if mh.uncertain {
 			info.uncertainInWin = true
+		} else {
+			lo = vfC09AddVec(lo, mh.sure.vec())
+		}
+		if mh.opt.total() > 0 {
+			info.optionalInWin = true
 		}
 	}
 	sort.Slice(inWin, func(i, j int) bool { return inWin[i] < inWin[j] })
@@ -287,8 +335,8 @@ func vfC09CheckRead(m *vfC09Model, body []byte) (info vfC09ReadInfo, err error) 
 		}
 	}
 
-	// present is the set of hours whose counts are in the response.
-	present := map[uint32]bool{}
+	// reported collects the counts that the response is known to contain.
+	reported := vfC09NewCounts()
 	exact := false
 
 	switch r.TimeUnits {
@@ -301,31 +349,60 @@ func vfC09CheckRead(m *vfC09Model, body []byte) (info vfC09ReadInfo, err error) 
 		for i := 0; i < int(limit); i++ {
 			h := first + uint32(i)
 			mh := m.hours[h]
-			want := mh.vec()
 			var got [5]uint64
 			for c, s := range series {
 				if c != vfC09SS {
 					got[c] = s[i]
 				}
 			}
-			want[vfC09SS] = 0
-			switch {
-			case got == want:
-				if mh != nil {
-					present[h] = true
-					if mh.uncertain {
-						info.uncertainShown++
-					}
+			if mh == nil {
+				if got != [5]uint64{} {
+					return info, fmt.Errorf("hour %d (series index %d): (dns_queries, blocked_filtering, replaced_safebrowsing, "+
+						"replaced_parental) = (%d, %d, %d, %d), but nothing was counted in that hour", h, i,
+						got[vfC09Tot], got[vfC09Flt], got[vfC09SB], got[vfC09Par])
 				}
-			case mh != nil && mh.uncertain && got == [5]uint64{}:
+
+				continue
+			}
+
+			// The admissible contents of the hour, most complete first.
+			all := vfC09AddVec(mh.sure.vec(), mh.opt.vec())
+			sure := mh.sure.vec()
+			all[vfC09SS], sure[vfC09SS] = 0, 0
+			hasOpt := mh.opt.total() > 0
+			switch {
+			case got == all:
+				mh.sure.addTo(reported)
+				mh.opt.addTo(reported)
+				if mh.uncertain {
+					info.uncertainShown++
+				}
+				if hasOpt {
+					info.optShown++
+				}
+			case hasOpt && got == sure:
+				mh.sure.addTo(reported)
+				info.optHidden++
+				if mh.uncertain && mh.sure.total() > 0 {
+					info.uncertainShown++
+				}
+			case mh.uncertain && got == [5]uint64{}:
 				// An hour that has been outside the window may be gone.
 				info.uncertainHidden++
 			default:
+				alt := ""
+				if hasOpt {
+					alt += fmt.Sprintf(" or (%d, %d, %d, %d) (without what was counted before the statistics were disabled)",
+						sure[vfC09Tot], sure[vfC09Flt], sure[vfC09SB], sure[vfC09Par])
+				}
+				if mh.uncertain {
+					alt += " or all zero (hour has been outside the window)"
+				}
+
 				return info, fmt.Errorf("hour %d (series index %d): (dns_queries, blocked_filtering, replaced_safebrowsing, "+
 					"replaced_parental) = (%d, %d, %d, %d), want (%d, %d, %d, %d)%s", h, i,
 					got[vfC09Tot], got[vfC09Flt], got[vfC09SB], got[vfC09Par],
-					want[vfC09Tot], want[vfC09Flt], want[vfC09SB], want[vfC09Par],
-					map[bool]string{true: " or all zero (hour has been outside the window)", false: ""}[mh != nil && mh.uncertain])
+					all[vfC09Tot], all[vfC09Flt], all[vfC09SB], all[vfC09Par], alt)
 			}
 		}
 		for c := range series {
@@ -340,9 +417,9 @@ func vfC09CheckRead(m *vfC09Model, body []byte) (info vfC09ReadInfo, err error) 
 				return info, fmt.Errorf("daily series %s sums to %d > %s = %d", seriesNames[c], sum[c], vfC09VecNames[c], tot[c])
 			}
 		}
-		if !info.uncertainInWin {
+		if !info.uncertainInWin && !info.optionalInWin {
 			for _, h := range inWin {
-				present[h] = true
+				m.hours[h].sure.addTo(reported)
 			}
 			exact = true
 		}
@@ -354,39 +431,22 @@ func vfC09CheckRead(m *vfC09Model, body []byte) (info vfC09ReadInfo, err error) 
 		return info, nil
 	}
 
-	// The set of reported hours is known: everything is an equality.
-	var want [5]uint64
-	clients, queried, blocked := map[string]uint64{}, map[string]uint64{}, map[string]uint64{}
-	for h := range present {
-		mh := m.hours[h]
-		v := mh.vec()
-		for i := range v {
-			want[i] += v[i]
-		}
-		for k, n := range mh.clients {
-			clients[k] += n
-		}
-		for k, n := range mh.queried {
-			queried[k] += n
-		}
-		for k, n := range mh.blocked {
-			blocked[k] += n
-		}
-	}
+	// The set of reported counts is known: everything is an equality.
+	want := reported.vec()
 	for i := range tot {
 		if tot[i] != want[i] {
 			return info, fmt.Errorf("%s = %d, want %d (sum over the reported hours of the window)", vfC09VecNames[i], tot[i], want[i])
 		}
 	}
-	err = vfC09CmpTop("top_clients", r.TopClients, clients)
+	err = vfC09CmpTop("top_clients", r.TopClients, reported.clients)
 	if err != nil {
 		return info, err
 	}
-	err = vfC09CmpTop("top_queried_domains", r.TopQueried, queried)
+	err = vfC09CmpTop("top_queried_domains", r.TopQueried, reported.queried)
 	if err != nil {
 		return info, err
 	}
-	err = vfC09CmpTop("top_blocked_domains", r.TopBlocked, blocked)
+	err = vfC09CmpTop("top_blocked_domains", r.TopBlocked, reported.blocked)
 	if err != nil {
 		return info, err
 	}
@@ -539,7 +599,7 @@ func (hst *vfC09Hist) update(t vfC09Fataler, e *Entry, n int) {
 // advance moves the clock k hours ahead and runs the body of the hourly worker.
 func (hst *vfC09Hist) advance(t vfC09Fataler, k uint32) {
 	hst.logf("advance{%dh}", k)
-	hadData := len(hst.m.hours) > 0 && hst.m.hours[hst.m.now] != nil
+	hadData := hst.m.hours[hst.m.now] != nil
 	hst.m.now += k
 	hst.x.clock.Store(hst.m.now)
 	func() {
@@ -652,11 +712,14 @@ func (hst *vfC09Hist) legacyConfig(t vfC09Fataler, days uint32, wantOK bool) {
 		t.Fatalf("valid interval %s rejected: %d %s\nhistory: %s", body, code, out, hst.tail())
 	}
 	if days == 0 {
+		// "0 means that the statistics is disabled": nothing is counted from
+		// now on; whether what was counted before is still reported is not
+		// stated, so it becomes optional.
 		hst.m.enabled = false
 		if len(hst.m.hours) > 0 {
-			hst.flags["clear_with_data"] = true
+			hst.flags["legacy_disable_with_data"] = true
 		}
-		hst.m.hours = map[uint32]*vfC09Hour{}
+		hst.m.makeOptional()
 		hst.flags["legacy_disable"] = true
 
 		return
@@ -713,6 +776,12 @@ func (hst *vfC09Hist) read(t vfC09Fataler) {
 	}
 	if info.uncertainHidden > 0 {
 		hst.flags["uncertain_hour_gone"] = true
+	}
+	if info.optShown > 0 {
+		hst.flags["optional_counts_reported"] = true
+	}
+	if info.optHidden > 0 {
+		hst.flags["optional_counts_gone"] = true
 	}
 
 	code, out, err = hst.x.do(http.MethodGet, "/control/stats/config", "")
